@@ -7,6 +7,7 @@ COMPONENTS = {
             "internal/cluster/xv_acc_verif.go": "acc/cluster/xv_acc_verif.go",
             "internal/cluster/xv_view_verif.go": "acc/cluster/xv_view_verif.go",
         },
+        "env": {"XV_C17_FINDINGS": "1"},   # the two recorded findings are raised as monitors (matched by known_findings.json)
         "what": ("cluster.ClusterView / NodeState: IsNewerThan, AddMember, RemoveMember, IncrementVersion, in-place status change, "
                  "recomputeCounts, Snapshot, MergeFromWithOptions (3 strategies, skew off/far/near) vs Cluster/View.v"),
     },
